@@ -11,13 +11,13 @@ Parameters taken from generated tables: `upper` (`str.upper`), `isSpace` (`str.i
 namespace Sql
 
 structure SplitCfg where
-  upper : Text → Text
+  upper : Text → Text      -- `str.upper`
   isSpace : Cp → Bool
   eos : List TType
 
 structure SplitFlags where
   inDeclare : Bool := false
-  inCase : Bool := false
+  inCase : Nat := 0           -- depth of open CASE expressions inside a block
   isCreate : Bool := false
   beginDepth : Nat := 0
 deriving Repr, DecidableEq, Inhabited
@@ -30,26 +30,66 @@ def splitFirst (isSpace : Cp → Bool) (v : Text) : Option Text :=
   | [] => none
   | w => some w
 
+/-- `str.split()` on runs of `isSpace` -/
+def pySplitWs (isSpace : Cp → Bool) : Nat → Text → List Text
+  | 0, _ => []
+  | fuel+1, v =>
+    match v.dropWhile isSpace with
+    | [] => []
+    | w => w.takeWhile (fun c => !isSpace c) :: pySplitWs isSpace fuel (w.dropWhile (fun c => !isSpace c))
+
+/-- `' '.join(value.upper().split())` -/
+def unify (cfg : SplitCfg) (value : Text) : Text :=
+  let u := cfg.upper value
+  [32].intercalate (pySplitWs cfg.isSpace (u.length + 1) u)
+
+/-- what `_change_splitlevel` can see of a token: its kind (the tests of the function, in source order) -/
+inductive SKind where
+  | lparen | rparen
+  | other                      -- `return 0`: not a keyword, or a keyword without effect
+  | create                     -- `ttype is T.Keyword.DDL and unified.startswith('CREATE')`
+  | declare | begin_ | end_
+  | opener (isCase : Bool)     -- IF / FOR / WHILE / CASE
+  | closer                     -- END IF / END FOR / END WHILE
+deriving DecidableEq, Repr
+
+def kindOf (cfg : SplitCfg) (tt : TType) (value : Text) : SKind :=
+  if tt == T.Punctuation && value == txt "(" then .lparen
+  else if tt == T.Punctuation && value == txt ")" then .rparen
+  else if !tt.isIn T.Keyword then .other
+  else
+    let unified := unify cfg value
+    if tt == T.DDL && (txt "CREATE").isPrefixOf unified then .create
+    else if unified == txt "DECLARE" then .declare
+    else if unified == txt "BEGIN" then .begin_
+    else if unified == txt "END" then .end_
+    else if unified == txt "IF" || unified == txt "FOR" || unified == txt "WHILE" then .opener false
+    else if unified == txt "CASE" then .opener true
+    else if unified == txt "END IF" || unified == txt "END FOR" || unified == txt "END WHILE" then .closer
+    else .other
+
+/-- the effect of a token kind on the level and the flags -/
+def kindStep (f : SplitFlags) : SKind → Int × SplitFlags
+  | .lparen => (1, f)
+  | .rparen => (-1, f)
+  | .other => (0, f)
+  | .create => (0, { f with isCreate := true })
+  | .declare => if f.isCreate && f.beginDepth == 0 then (1, { f with inDeclare := true }) else (0, f)
+  | .begin_ =>
+    let f' := { f with beginDepth := f.beginDepth + 1 }
+    if f.isCreate then (1, f') else (0, f')
+  | .end_ =>
+    if f.inCase == 0 then (-1, { f with beginDepth := f.beginDepth - 1 })   -- `max(0, depth - 1)`
+    else (-1, { f with inCase := f.inCase - 1 })
+  | .opener isCase =>
+    if f.isCreate && f.beginDepth > 0 then
+      (if isCase then (1, { f with inCase := f.inCase + 1 }) else (1, f))
+    else (0, f)
+  | .closer => (-1, f)
+
 /-- `_change_splitlevel`: level delta and the updated flags -/
 def changeSplitLevel (cfg : SplitCfg) (f : SplitFlags) (tt : TType) (value : Text) : Int × SplitFlags :=
-  if tt == T.Punctuation && value == txt "(" then (1, f)
-  else if tt == T.Punctuation && value == txt ")" then (-1, f)
-  else if !tt.isIn T.Keyword then (0, f)
-  else
-    let unified := cfg.upper value
-    if tt == T.DDL && (txt "CREATE").isPrefixOf unified then (0, { f with isCreate := true })
-    else if unified == txt "DECLARE" && f.isCreate && f.beginDepth == 0 then (1, { f with inDeclare := true })
-    else if unified == txt "BEGIN" then
-      let f' := { f with beginDepth := f.beginDepth + 1 }
-      if f.isCreate then (1, f') else (0, f')
-    else if unified == txt "END" then
-      if !f.inCase then (-1, { f with beginDepth := f.beginDepth - 1 })
-      else (-1, { f with inCase := false })
-    else if (unified == txt "IF" || unified == txt "FOR" || unified == txt "WHILE" || unified == txt "CASE")
-        && f.isCreate && f.beginDepth > 0 then
-      if unified == txt "CASE" then (1, { f with inCase := true }) else (1, f)
-    else if unified == txt "END IF" || unified == txt "END FOR" || unified == txt "END WHILE" then (-1, f)
-    else (0, f)
+  kindStep f (kindOf cfg tt value)
 
 structure SplitState where
   flags : SplitFlags := {}
@@ -62,14 +102,16 @@ deriving Inhabited
 /-- `ttype in T.Whitespace` -/
 def Tok.isWhitespace (t : Tok) : Bool := t.tt.isIn T.Whitespace
 
-/-- one iteration of the loop in `process` -/
-def splitStep (cfg : SplitCfg) (st : SplitState) (t : Tok) : Except PyErr SplitState :=
-  -- `if self.consume_ws and ttype not in EOS_TTYPE: yield …; self._reset()`
-  let st := if st.consumeWs && !(cfg.eos.contains t.tt) then
-      { flags := {}, consumeWs := false, level := 0, cur := [], done := st.done ++ [st.cur] }
-    else st
-  let (d, fl) := changeSplitLevel cfg st.flags t.tt t.val
-  let st := { st with level := st.level + d, flags := fl, cur := st.cur ++ [t] }
+/-- `if self.consume_ws and ttype not in EOS_TTYPE: yield sql.Statement(self.tokens); self._reset()` -/
+def splitYield (cfg : SplitCfg) (st : SplitState) (t : Tok) : SplitState :=
+  if st.consumeWs && !(cfg.eos.contains t.tt) then
+    { flags := {}, consumeWs := false, level := 0, cur := [], done := st.done ++ [st.cur] }
+  else st
+
+/-- the rest of the loop body: change the level, append the token, test for the end of a statement -/
+def splitAdvance (cfg : SplitCfg) (st : SplitState) (t : Tok) : Except PyErr SplitState :=
+  let r := changeSplitLevel cfg st.flags t.tt t.val
+  let st := { st with level := st.level + r.fst, flags := r.snd, cur := st.cur ++ [t] }
   -- `(self.level <= 0 and ttype is T.Punctuation and value == ';') or (ttype is T.Keyword and value.split()[0] == 'GO')`
   if st.level ≤ 0 && t.tt == T.Punctuation && t.val == txt ";" then .ok { st with consumeWs := true }
   else if t.tt == T.Keyword then
@@ -77,6 +119,10 @@ def splitStep (cfg : SplitCfg) (st : SplitState) (t : Tok) : Except PyErr SplitS
     | none => .error .indexError
     | some w => .ok (if w == txt "GO" then { st with consumeWs := true } else st)
   else .ok st
+
+/-- one iteration of the loop in `process` -/
+def splitStep (cfg : SplitCfg) (st : SplitState) (t : Tok) : Except PyErr SplitState :=
+  splitAdvance cfg (splitYield cfg st t) t
 
 def splitRun (cfg : SplitCfg) : SplitState → List Tok → Except PyErr SplitState
   | st, [] => .ok st
